@@ -311,6 +311,24 @@ _old_instances17 = instances
 
 def instances(tier):
     out, meta = _old_instances17(tier)
+    # interleavings against an ABSOLUTE oracle (the law / neighbour equations of C01 on the final table): state kept outside the
+    # System - in component objects, interpolators, class or module level - poisons a before/after comparison on both sides alike
+    from ..shapes import S, N
+    hs = {
+        "phased-chain": (S(N("S", "Source", only=("rs",)), N("C", "Converter", "S", phases=["a"], only=("iis", "iq")), N("G", "LinReg", "C", only=("vdrop", "ig")),
+                           N("L", "ILoad", "G", phases=["a", "b"], only=("iis",)), N("L2", "PLoad", "S", phases=["b"], only=("pwrs",)), phases=["a", "b"]),
+                         [(["solve_phase:a"], "b"), (["solve_phase:b", "rail_rep"], "a"), (["solve_energy", "save"], None)]),
+        "tables": (S(N("S", "Source", only=()), N("W", "PSwitch", "S", form="t1x2", only=("rs",)), N("V", "VLoss", "W", form="t1x2"),
+                     N("L", "ILoad", "V", phases=["a", "b"], only=()), phases=["a", "b"]),
+                   [(["solve_phase:a"], "b"), (["solve", "batt_life"], None)]),
+        "mux": (S(N("S1", "Source", pol="nonneg", only=(), phases=["a"]), N("S2", "Source", only=()), N("M", "PMux", ["S1", "S2"], rs_list=True, only=("rs",)),
+                  N("L", "PLoad", "M", only=()), phases=["a", "b"]),
+                [(["solve_phase:a"], "b"), (["solve_phase:b", "params"], "a")]),
+    }
+    for sid, (sh, runs) in hs.items():
+        for seq, final in (runs if tier == "thorough" else runs[:2]):
+            out.append(Instance("C17", "c17:e_hidden_state", dict(shape=sh, seq=seq, final=final),
+                                name="HS/%s/%s->%s" % (sid, "+".join(seq), final or "all"), uf=True, cover=["ran"], weight=20, max_paths=4000))
     out.append(Instance("C17", "c17:h_all_analyses", dict(n=2 if tier == "quick" else 3), name="ALL/sequences-of-%d" % (2 if tier == "quick" else 3),
                         cover=["ran"], weight=50, max_paths=5000, time_limit=3000))
     return out, meta
